@@ -145,8 +145,13 @@ def main():
         print("| %s | %s | %s | %s |" % (name, heading(d, n), by if m.get("detected_by_check") else "**not detected**",
                                        (("**missed at first**: " if m.get("detected_by_check") else "") + MISSED[name]) if name in MISSED else ""))
     print()
-    print("%d changes, %d detected by the quick tier as committed, %d of them only after the harness was strengthened."
-          % (total, det, len([k for k in MISSED if os.path.exists(os.path.join(root, k))])))
+    late = 0
+    for k in MISSED:
+        mp = os.path.join(root, k, "meta.json")
+        if os.path.exists(mp) and json.load(open(mp)).get("detected_by_check"):
+            late += 1
+    print("%d changes, %d detected by the quick tier of their property as committed (%d of them only after the harness was "
+          "strengthened), %d not detected there (see their rows)." % (total, det, late, total - det))
 
 
 if __name__ == "__main__":
